@@ -5,6 +5,7 @@ import (
 	"net/url"
 	"strings"
 
+	"github.com/AdguardTeam/urlfilter/filterutil"
 	"github.com/AdguardTeam/urlfilter/rules"
 	"golang.org/x/net/publicsuffix"
 )
@@ -88,6 +89,37 @@ func init() {
 			}
 			for _, h := range pslHosts {
 				emit("host\t" + hx(h))
+			}
+			// pairs of host names with the same length and the same 32-bit hash whose registrable domains start at
+			// different offsets ("abcdefg.example.com" / "abc.defghijkl.co.uk"), resolved one after the other in one process
+			{
+				al := "abcdefghijklmnopqrstuvwxyz"
+				pr := newRand(20241002)
+				word := func(n int) string {
+					b := make([]byte, n)
+					for k := range b {
+						b[k] = al[pr.Intn(26)]
+					}
+					return string(b)
+				}
+				seen := make(map[uint32]string, 400000)
+				for k := 0; k < 400000; k++ {
+					h := word(7) + ".example.com"
+					seen[filterutil.FastHash(h)] = h
+				}
+				found := 0
+				for k := 0; k < 600000 && found < 6; k++ {
+					h := word(3) + "." + word(9) + ".co.uk"
+					if o, ok := seen[filterutil.FastHash(h)]; ok && len(o) == len(h) {
+						for _, pr := range [][2]string{{o, h}, {h, o}} {
+							emit("host\t" + hx(pr[0]))
+							emit("host\t" + hx(pr[1]))
+							emit("url\t" + hx("http://"+pr[1]+"/x") + "\t" + hx("https://"+pr[1][strings.Index(pr[1], ".")+1:]+"/") + "\t1")
+							emit("url\t" + hx("http://"+pr[0]+"/x") + "\t" + hx("https://www."+pr[0][strings.Index(pr[0], ".")+1:]+"/") + "\t1")
+						}
+						found++
+					}
+				}
 			}
 			for i := 0; i < n; i++ {
 				switch g.Intn(10) {
